@@ -75,6 +75,45 @@ type Walker struct {
 	Removed map[edge]bool                  // CFG edges that may not be taken
 	Stop    func(in ssa.Instruction) bool  // instructions that block the path (path ends, not a hit)
 	NoPanic bool                           // if set, do NOT treat no-return calls as path ends
+	// TargetAt, if set, replaces the target predicate and also receives the predecessor block through which
+	// the instruction's block was entered on this path (nil at the start), to resolve phis edge-sensitively.
+	TargetAt func(in ssa.Instruction, path []*ssa.BasicBlock) bool
+}
+
+// resolvePhi resolves v along a block path (path ends with the block that uses v): while v is a phi of a block on
+// the path, it is replaced by the incoming value for the edge the path took into that block.
+func resolvePhi(v ssa.Value, path []*ssa.BasicBlock) ssa.Value {
+	for n := 0; n < 8; n++ {
+		phi, ok := v.(*ssa.Phi)
+		if !ok {
+			return v
+		}
+		// last occurrence of the phi's block on the path
+		idx := -1
+		for i := len(path) - 1; i >= 0; i-- {
+			if path[i] == phi.Block() {
+				idx = i
+				break
+			}
+		}
+		if idx <= 0 {
+			return v
+		}
+		pred := path[idx-1]
+		found := false
+		for i, p := range phi.Block().Preds {
+			if p == pred && i < len(phi.Edges) {
+				v = phi.Edges[i]
+				found = true
+				break
+			}
+		}
+		if !found {
+			return v
+		}
+		path = path[:idx]
+	}
+	return v
 }
 
 type Hit struct {
@@ -106,7 +145,7 @@ func (w *Walker) Reach(fn *ssa.Function, start *ssa.BasicBlock, idx int, target 
 		phiC := ownPhiCond(it.b)
 		if !first || it.i == 0 {
 			k := skey{it.b, nil, it.facts}
-			if phiC != nil {
+			if phiC != nil || (w.TargetAt != nil && hasPhi(it.b)) {
 				k.pred = it.pred
 			}
 			if seen[k] {
@@ -119,7 +158,7 @@ func (w *Walker) Reach(fn *ssa.Function, start *ssa.BasicBlock, idx int, target 
 		blocked := false
 		for i := it.i; i < len(it.b.Instrs); i++ {
 			in := it.b.Instrs[i]
-			if target(in) {
+			if (w.TargetAt != nil && w.TargetAt(in, node.list())) || (w.TargetAt == nil && target(in)) {
 				return Hit{in, node.list()}, true
 			}
 			if w.Stop != nil && w.Stop(in) {
@@ -432,4 +471,12 @@ func factAdd(facts, key string, val bool) string {
 	parts = append(parts, "\x00"+key+"\x01"+v)
 	sort.Strings(parts)
 	return strings.Join(parts, "\x02")
+}
+
+func hasPhi(b *ssa.BasicBlock) bool {
+	if len(b.Instrs) == 0 {
+		return false
+	}
+	_, ok := b.Instrs[0].(*ssa.Phi)
+	return ok
 }
